@@ -51,7 +51,7 @@ DESCRIPTION = {
         "the empty-payload /directory route is judged against the union of root_path and SQLLINEAGE_DIRECTORY",
     ],
     "required_probes": {
-        "quick": ["outside_dotdot", "outside_sibling_prefix", "outside_absolute", "outside_relative", "inside_served", "directory_of_root_file",
+        "quick": ["insertion_sweep", "outside_dotdot", "outside_sibling_prefix", "outside_absolute", "outside_relative", "inside_served", "directory_of_root_file",
                   "directory_f_is_root", "get_static_served", "get_outside", "os_error_fired", "root_moved", "chdir", "fs_mutated", "lineage_by_file"],
         "thorough": ["outside_dotdot", "outside_sibling_prefix", "inside_served", "os_error_fired", "root_moved", "threaded_root_move_concurrent"],
     },
@@ -448,7 +448,63 @@ def run_one(spec: dict) -> dict:
     threaded = len(spec.get("clients", [])) > 1 or spec.get("admin_thread")
     sched = None
     try:
-        if not threaded:
+        if spec.get("sweep"):
+            # systematic single insertion (sched.InsertAtChooser): after the same warm-up, the intruder's whole
+            # operation is inserted at EVERY yield point k of the victim's request; follow-up requests afterwards
+            from ..sched import InsertAtChooser
+
+            sw = spec["sweep"]
+            gran = sw.get("gran", "instr")
+            tracer = None
+            steps = 0
+            k, total = -1, None
+            probe("insertion_sweep")
+            try:
+                while (total is None or k < total) and viol[0] is None:
+                    app.root_path = Path(world.p("root"))
+                    root_hist[:] = [os.path.normpath(world.p("root"))]
+                    os.chdir(world.p("cwd"))
+                    for op in sw.get("warm", []):
+                        do_request(op, "warm") if "method" in op else do_admin(op)
+                    sched = Scheduler(InsertAtChooser(0, k if k >= 0 else 10 ** 9, 1), max_steps=2_000_000, hang_s=100.0)
+
+                    def vbody():
+                        sched.yield_point("op", "request")
+                        do_request(sw["victim"], "victim")
+
+                    def ibody():
+                        sched.yield_point("op", "intruder")
+                        do_request(sw["intruder"], "intruder") if "method" in sw["intruder"] else do_admin(sw["intruder"])
+
+                    sched.spawn("victim", vbody)
+                    sched.spawn("intruder", ibody)
+                    if tracer is None:
+                        tracer = LineTracer(sched, [drawing], granularity=gran)
+                        tracer.install()
+                    tracer.sched = sched
+                    sched.run()
+                    for t in sched.threads:
+                        if t.exc is not None:
+                            if isinstance(t.exc, HarnessError):
+                                raise t.exc
+                            violate("thread_died", f"thread {t.name} died with {type(t.exc).__name__}: {t.exc}")
+                    if total is None:
+                        total = min(sched.chooser.count, 3000)
+                    steps += sched.step
+                    for op in sw.get("follow", []):
+                        do_request(op, "follow") if "method" in op else do_admin(op)
+                    if viol[0] is not None:
+                        viol[0]["message"] += f" [systematic insertion: intruder inserted at yield point {k} of {total} ({gran}) of the victim's request]"
+                    k += 1
+                    if len(events) > 400:
+                        del events[:-50]
+            finally:
+                if tracer is not None:
+                    tracer.uninstall()
+            events[:] = [["sweep", json.dumps(sw, sort_keys=True)[:2000], total, bool(viol[0])]]
+            schedule = []
+            line_digest = ""
+        elif not threaded:
             for op in spec["clients"][0]:
                 if "method" in op:
                     do_request(op)
@@ -657,6 +713,39 @@ def gen(seed, tier="quick") -> dict:
             "gran": g.choice(["line", "line", "instr"])}
 
 
+def gen_sweep(seed) -> dict:
+    g = stream(seed, "gen-sweep")
+    inside = lambda: {"start": "origroot", "segs": list(g.choice([["a.sql"], ["sub", "b.sql"], ["sub"], [], ["sub", "deep", "c.sql"]])), "abs": True}
+    outside = lambda: {"start": g.choice(["outside", "sibling", "root2", "W"]), "segs": list(g.choice([["o.sql"], ["s.sql"], ["r2.sql"], [], ["more", "m.sql"], ["outside", "o.sql"]])), "abs": True}
+    route = lambda: g.choice(["/script", "/directory", "/directory", "/lineage"])
+
+    def req(pathf):
+        r = route()
+        return {"method": "POST", "route": r, "key": g.choice(["f", "d"]) if r == "/directory" else "f", "path": pathf()}
+
+    kind = g.choice(["repeat_forbidden_vs_permitted", "request_vs_root_move", "request_vs_request", "permitted_vs_forbidden"])
+    if kind == "repeat_forbidden_vs_permitted":
+        f = req(outside)
+        sw = {"warm": [json.loads(json.dumps(f))] if g.random() < 0.8 else [], "victim": f, "intruder": req(inside), "follow": [json.loads(json.dumps(f))]}
+    elif kind == "permitted_vs_forbidden":
+        pth = req(inside)
+        sw = {"warm": [json.loads(json.dumps(pth))], "victim": pth, "intruder": req(outside), "follow": [req(outside)]}
+    elif kind == "request_vs_root_move":
+        to = g.choice(["root2", "sub"])
+        v = {"method": "POST", "route": route(), "key": "f", "path": {"start": "origroot", "segs": ["a.sql"], "abs": True}}
+        if v["route"] == "/directory":
+            v["key"] = g.choice(["f", "d"])
+        follow = [{"method": "POST", "route": g.choice(["/script", "/directory"]), "key": "f", "path": {"start": "origroot", "segs": ["a.sql"], "abs": True}},
+                  {"method": "POST", "route": "/directory", "key": "d", "path": {"start": "origroot", "segs": [], "abs": True}}]
+        sw = {"warm": [{"op": "root_move", "to": "root", "relative": False}] if g.random() < 0.5 else [], "victim": v,
+              "intruder": {"op": "root_move", "to": to, "relative": False}, "follow": follow}
+    else:
+        sw = {"warm": [], "victim": req(g.choice([inside, outside])), "intruder": req(g.choice([inside, outside])), "follow": [req(outside)]}
+    sw["gran"] = "instr" if g.random() < 0.7 else "line"
+    sw["kind"] = kind
+    return {"seed": seed, "clients": [[]], "faults": [], "sweep": sw}
+
+
 def plan(seed: int, tier: str) -> list[dict]:
     master = stream(seed, "c17-plan")
     n = {"quick": 10_000, "thorough": 300_000}[tier]
@@ -664,6 +753,9 @@ def plan(seed: int, tier: str) -> list[dict]:
     units = []
     for b in range(n // block):
         units.append({"key": {"hash_seed": b % 3}, "specs": [gen(master.randrange(2 ** 48), tier) for _ in range(block)], "wall_s": 300.0})
+    nsw = {"quick": 160, "thorough": 4000}[tier]
+    for b in range(nsw // 8):
+        units.insert(b * 3, {"key": {"hash_seed": 0}, "specs": [gen_sweep(master.randrange(2 ** 48)) for _ in range(8)], "wall_s": 300.0})
     return units
 
 
